@@ -208,4 +208,17 @@ Fixpoint chunk (fuel c : nat) (l : list F) : list (list F) :=
 Definition flatwise (f : list F -> list F) (rows : list (list F)) : list (list F) :=
   match rows with [] => [] | r :: _ => chunk (length rows) (length r) (f (concat rows)) end.
 
+(* ---------- svd_thresholding / procrustes over an SVD answer tape: U (m x k, rows), s (k), V (k x n, rows) are the
+   values returned by tl.truncated_svd(matrix, n_eigenvecs=min(shape)); the SVD itself is never re-implemented.
+   svd_thresholding: tl.dot(U, reshape(soft_thresholding(s, threshold), (-1, 1)) * V);  procrustes: tl.dot(U, V) *)
+Definition mat_mul (A B : list (list F)) : list (list F) :=
+  let Bc := cols_of B in map (fun row => map (fun col => dot row col) Bc) A.
+Definition scale_rows (s : list F) (V : list (list F)) : list (list F) :=
+  map (fun sr : F * list F => map (fun x => fst sr *f x) (snd sr)) (combine s V).
+Definition svd_thresholding_with (U : list (list F)) (s : list F) (V : list (list F)) (t : F) : list (list F) :=
+  mat_mul U (scale_rows (soft_thresholding t s) V).
+Definition procrustes_with (U V : list (list F)) : list (list F) := mat_mul U V.
+Definition identity_mat (k : nat) : list (list F) :=
+  map (fun i => map (fun j => if Nat.eqb i j then one else zero) (seq 0 k)) (seq 0 k).
+
 End Prox.
